@@ -495,7 +495,7 @@ class Eval:
             if isinstance(e.op, ast.RShift) and is_term(r) and r[0] == 'q' and l in (C_FRESH, C_ANY):
                 return ('subst', r[3], l)
             raise self.unsupported(f'{ast.unparse(e)} with {l!r}, {r!r}')
-        if isinstance(e, ast.Tuple):
+        if isinstance(e, (ast.Tuple, ast.List)):
             return Seq(self.items(e.elts, env))
         if isinstance(e, ast.IfExp):
             c = self.ev(e.test, env)
@@ -546,7 +546,7 @@ class Eval:
                 hi = self.ev(e.slice.upper, env) if e.slice.upper else None
                 return Seq(items[lo:hi])
             raise self.unsupported(ast.unparse(e))
-        if isinstance(e, ast.GeneratorExp):
+        if isinstance(e, (ast.GeneratorExp, ast.ListComp)):
             if len(e.generators) != 1 or e.generators[0].ifs:
                 raise self.unsupported('generator expression with conditions')
             g = e.generators[0]
